@@ -6,12 +6,15 @@
 (*   tag 1: T1[3]  auto-allocated in the Message Router  (2/1/1)             *)
 (*   tag 2: T1     scalar, auto-allocated                 (2/1/2)             *)
 (*   tag 3: T2[2]  bound to @153/1/2                                          *)
-(*   tag 4: T2[1]  bound to @153/1/3  (same instance, next attribute)         *)
+(*   tag 4: T2[1]  bound to @153/1/3  (same instance, next attribute) -- or, with Foreign = TRUE, to @1/1/11: an    *)
+(*          extra attribute of the Identity object, a CIP object that does not understand the Logix tag services  *)
+(*          (reachable by Get / Set Attribute Single only; used by the bundles of C07)                            *)
 (***************************************************************************)
 EXTENDS Logix, Json
 
 CONSTANTS T1, T2, Budget, Depth, Rich,  \* Rich: TRUE = larger request set
-          Many                           \* TRUE: twelve auto-allocated tags instead (allocation of many tags)
+          Many,                          \* TRUE: twelve auto-allocated tags instead (allocation of many tags)
+          Foreign                        \* TRUE: tag 4 lives in the Identity object
 
 Chars(s) == s
 ManyCfg == [ budget |-> Budget,
@@ -21,7 +24,7 @@ FourCfg == [ budget |-> Budget,
           tags |-> << [name |-> <<65>>,        type |-> T1, len |-> 3, scalar |-> FALSE, cia |-> <<2, 1, 1>>],
                       [name |-> <<66, 98>>,    type |-> T1, len |-> 1, scalar |-> TRUE,  cia |-> <<2, 1, 2>>],
                       [name |-> <<67, 95, 51>>, type |-> T2, len |-> 2, scalar |-> FALSE, cia |-> <<153, 1, 2>>],
-                      [name |-> <<68>>,        type |-> T2, len |-> 1, scalar |-> FALSE, cia |-> <<153, 1, 3>>] >> ]
+                      [name |-> <<68>>,        type |-> T2, len |-> 1, scalar |-> FALSE, cia |-> (IF Foreign THEN <<1, 1, 11>> ELSE <<153, 1, 3>>)] >> ]
 
 MCfg == IF Many THEN ManyCfg ELSE FourCfg
 
@@ -103,7 +106,9 @@ CoreOf(t) ==
   \cup (IF sz = 0 THEN {} ELSE
         { R("gas", t, "cia", 0 - 1, 0, 0, U, <<>>, <<>>),
           R("sas", t, "cia", 0 - 1, 0, 0, U, <<>>, EncElems(U, ValSeq(U, L, 2))) })
+\* ... and a member served by another kind of object (Get Attribute Single on the Identity object's attribute of tag 4)
 CoreReqs == CoreOf(1) \cup CoreOf(3) \cup { R("read", 0, "sym", 0 - 1, 1, 0, T1, <<>>, <<>>) }
+            \cup (IF Many \/ ~Foreign \/ Size(MCfg.tags[4].type) = 0 THEN {} ELSE { R("gas", 4, "cia", 0 - 1, 0, 0, MCfg.tags[4].type, <<>>, <<>>) })
 
 Multi(ms) == [svc |-> "multi", tag |-> 0, mode |-> "sym", idx |-> 0 - 1, n |-> 0, off |-> 0, typ |-> T1, vals |-> <<>>,
               bytes |-> <<>>, ms |-> ms]
